@@ -157,6 +157,10 @@ func (c *Ctx) effectfulCalls(f *ssa.Function) []*ssa.Call {
 		if t.Op != "call" || t.S != an.FuncKey(g) {
 			return
 		}
+		// a call on a path that only ends in a panic builds the panic's value (validation): not the forwarded effect
+		if (&an.Query{Target: func(t ssa.Instruction) bool { _, ok := t.(*ssa.Return); return ok }}).Search(an.After(in)) == nil {
+			return
+		}
 		out = append(out, call)
 	})
 	return out
